@@ -429,7 +429,7 @@ def op_wire(op):
         _, nids, fwt, fwv, image = op
         nid = ",".join(map(str, nids)) if nids else "-"
         if image is None:
-            return f"UF {nid} {fwt} {fwv} -"           # update_fw without a path
+            return f"UF {nid} {fwt} {fwv} ~"           # update_fw without a path
         if goes_through_file(image):
             # the model is given the text of the file the real call reads (Model/UpdateFw.lean)
             return f"UF {nid} {fwt} {fwv} " + enc_str(fw_file_text(image))
@@ -728,6 +728,20 @@ def gen_stream(rng, const, node):
 def gen_malformed(rng, version, sym):
     r = rng.random()
     node = rng.choice(list(sym.nodes) or [1])
+    if r < 0.12:
+        # a frame that would be accepted, with surplus fields: a free-text value or sketch name holding the
+        # separator, or two frames glued on one line — malformed, to be ignored whatever the node / child
+        kids = list(sym.nodes.get(node, {}).get("children", {})) or [0]
+        child = rng.choice(kids)
+        return rng.choice([
+            f"{node};{child};1;0;{rng.choice([24, 25, 47])};a;b\n",
+            f"{node};255;3;0;11;my;sketch\n",
+            f"{node};255;3;0;12;1;0\n",
+            f"{node};255;0;0;17;{version};x\n",
+            f"{node};{child};0;0;6;desc;ription\n",
+            f"{node};{child};1;0;2;1;{node};{child};1;0;2;0\n",
+            f"255;255;3;0;3;;\n",
+            f"{node};255;3;0;0;55;\n"])
     if r < 0.2:
         return rng.choice(["", "\n", ";", "abc", ";;;;;\n", "1;2;3\n", "1;2;3;4;5;6;7\n", "\x00", "1;1;1;0;0\n",
                            "a;b;c;d;e;f\n", "1;1;1;0;2;1;1\n", "ü;1;1;0;0;x\n"])
